@@ -1,3 +1,4 @@
+pub mod hang;
 pub mod indep;
 pub mod runner;
 pub mod sim;
